@@ -98,7 +98,10 @@ impl<A: AcceptableMasterList, C: Clock, F: Filter, R: Rng, S: PtpInstanceStateMu
                 && self.port_identity.port_number > message.header.source_port_identity.port_number
             {
                 self.multiport_disable = Some(Duration::ZERO);
-                self.set_forced_port_state(PortState::Passive);
+                // a port disabled by a peer delay fault stays disabled
+                if !matches!(self.port_state, PortState::Faulty) {
+                    self.set_forced_port_state(PortState::Passive);
+                }
             }
             actions![PortAction::ResetAnnounceReceiptTimer {
                 duration: self.config.announce_duration(&mut self.rng),
